@@ -827,6 +827,8 @@ class JupiterMoons(object):
         # Check type
         if not isinstance(i_sat, int):
             raise TypeError("Invalid input types")
+        if i_sat < 1 or i_sat > 4:
+            raise ValueError("Invalid satellite number: must be 1 to 4")
 
         # Handle tuple or seperate values for input coordinates
         if type(X_coordinate) in (list, tuple):  # input type: tuple or list
@@ -941,6 +943,10 @@ class JupiterMoons(object):
 
             return result_matrix
         else:
+            if not isinstance(i_sat, int):
+                raise TypeError("Invalid input types")
+            if i_sat < 1 or i_sat > 4:
+                raise ValueError("Invalid satellite number: must be 1 to 4")
             return JupiterMoons.check_occultation(Coords_Earth[i_sat - 1][0],
                                                   Coords_Earth[i_sat - 1][0],
                                                   Coords_Earth[i_sat - 1][
@@ -1085,6 +1091,9 @@ class JupiterMoons(object):
         if epoch is not None and i_sat is not None:
             # Check types
             if isinstance(epoch, Epoch) and isinstance(i_sat, int):
+                if i_sat < 1 or i_sat > 4:
+                    raise ValueError(
+                        "Invalid satellite number: must be 1 to 4")
                 # Calculate coordinates for given Epoch as seen from the Earth
                 X, Y, Z = \
                     JupiterMoons.rectangular_positions_jovian_equatorial(
@@ -1145,6 +1154,9 @@ class JupiterMoons(object):
         if epoch is not None and i_sat is not None:
             # Check types
             if isinstance(epoch, Epoch) and isinstance(i_sat, int):
+                if i_sat < 1 or i_sat > 4:
+                    raise ValueError(
+                        "Invalid satellite number: must be 1 to 4")
                 # Calculate coordinates for given Epoch as seen from the Sun
                 X_0, Y_0, Z_0 = \
                     JupiterMoons.rectangular_positions_jovian_equatorial(
